@@ -93,6 +93,11 @@ XMLUCS4Transcoder::transcodeFrom(const  XMLByte* const          srcData
         if (fSwapped)
             nextVal = BitOps::swapBytes(nextVal);
 
+        // Only Unicode scalar values are legal: reject anything beyond
+        // U+10FFFF and surrogate code points
+        if ((nextVal > 0x10FFFF) || ((nextVal >= 0xD800) && (nextVal <= 0xDFFF)))
+            ThrowXMLwithMemMgr(TranscodingException, XMLExcepts::Trans_BadSrcSeq, getMemoryManager());
+
         // Handle a surrogate pair if needed
         if (nextVal & 0xFFFF0000)
         {
